@@ -52,6 +52,22 @@ def htlc_op(sc, spec, mdl, epoch=0):
         op['extra_payload'] = [{'typ': str(t), 'value': bytes(v).hex()} for t, v in spec.extra_payload]
     return op
 
+def _ds_signature(m, call):
+    from ..env_node import field as _field, _short as _sh
+    keyv = _field(m, call.args, 'key')
+    kind = 'attempts' if len(keyv.items) > 4 else 'state'
+    mode = _field(m, call.args, 'mode')
+    modes = {'MUST_CREATE': 'must-create', 'MUST_REPLACE': 'must-replace', 'CREATE_OR_REPLACE': 'create-or-replace'}
+    want = {'key_kind': kind}
+    if mode.variant == 'Some':
+        want['mode'] = modes.get(mode.fields[0].variant, 'must-create')
+    sv = _sh(_field(m, call.args, 'string'))
+    for tag in ('Free', 'Pending', 'Succeeded'):
+        if tag in sv:
+            want['string_contains'] = tag
+    want['has_generation'] = _field(m, call.args, 'generation').variant == 'Some'
+    return want
+
 def script_from_state(m, sc, v, trail=None):
     cfg = sc.cfg
     st = m.st
@@ -146,22 +162,28 @@ def script_from_state(m, sc, v, trail=None):
         if mm:
             op = {'op': 'rpc', 'method': mm.group(1)}
             if mm.group(1) == 'datastore':
-                # several writes may be outstanding (two lifecycles): name the one the model linearised here
+                # several writes may be outstanding (two lifecycles): name the one the model linearised here, and when
+                # several outstanding writes look alike, which of them in order of issue
                 try:
-                    call = env.calls[int(mm.group(2))]
-                    from ..env_node import field as _field, _short as _sh
-                    keyv = _field(m, call.args, 'key')
-                    kind = 'attempts' if len(keyv.items) > 4 else 'state'
-                    mode = _field(m, call.args, 'mode')
-                    modes = {'MUST_CREATE': 'must-create', 'MUST_REPLACE': 'must-replace', 'CREATE_OR_REPLACE': 'create-or-replace'}
-                    want = {'key_kind': kind}
-                    if mode.variant == 'Some':
-                        want['mode'] = modes.get(mode.fields[0].variant, 'must-create')
-                    sv = _sh(_field(m, call.args, 'string'))
-                    for tag in ('Free', 'Pending', 'Succeeded'):
-                        if tag in sv:
-                            want['string_contains'] = tag
-                    want['has_generation'] = _field(m, call.args, 'generation').variant == 'Some'
+                    cid = int(mm.group(2))
+                    want = _ds_signature(m, env.calls[cid])
+                    idx_call, idx_ret = {}, {}
+                    for i, e in enumerate(st.events):
+                        if e[0] == 'rpc_call' and e[2] == 'datastore':
+                            idx_call.setdefault(e[1], i)
+                        elif e[0] == 'rpc_lin' and e[2] == 'datastore':
+                            idx_ret.setdefault(e[1], i)
+                    here = idx_ret.get(cid, len(st.events))
+                    rank = 0
+                    for other, ic in idx_call.items():
+                        if other == cid or ic > idx_call.get(cid, 0) or ic > here:
+                            continue
+                        if idx_ret.get(other, len(st.events) + 1) < here:
+                            continue
+                        if _ds_signature(m, env.calls[other]) == want:
+                            rank += 1
+                    if rank:
+                        want = dict(want, skip=rank)
                     op['match'] = want
                 except Exception:
                     pass
@@ -175,6 +197,14 @@ def script_from_state(m, sc, v, trail=None):
                     op['code'] = env.wait_fail_codes[c]
             if mm.group(1) == 'waitsendpay' and 'code' not in op:
                 op['code'] = env.wait_fail_codes[0]
+            if mm.group(1) == 'waitsendpay':
+                # several waits may be outstanding (one per pending part): name the part this answer is for
+                try:
+                    p = env.find_part(m, env.calls[int(mm.group(2))])
+                    if p is not None:
+                        op['match'] = {'partid': p.partid, 'groupid_old': p.groupid == 1}
+                except Exception:
+                    pass
             try:
                 owner = env.calls[int(mm.group(2))].task
             except Exception:
@@ -462,7 +492,7 @@ def j_panic(v, script, nat):
         return True, 'panic: %s' % (nat.get('task_panics') or nat.get('panics'))[:3]
     return False, 'no panic natively'
 
-_NODE_ANSWERS = ('datastore', 'listdatastore', 'listsendpays', 'getinfo')
+_NODE_ANSWERS = ('datastore', 'listdatastore', 'listsendpays')      # (getinfo: the block watcher's periodic poll, not part of a payment)
 
 def _starved(nat):
     """The native run ended with a request outstanding that the node always answers: the script (derived from the
